@@ -11,6 +11,16 @@ _ODE_NOTE = ("the strict C reader is trusted for the statement shapes it accepts
 _ODE_TECH = ("TLA+ spec OdeGen.tla model-checked with TLC over all small networks; TLC-chosen and random networks rendered by the real "
              "generator for dense/sparse/cusparse/odeint, read back with a strict C reader and validated event by event by Trace_OdeGen.tla")
 CHECKS = {
+    "C11": dict(level="model_checking", design_ref="DESIGN.md §4 C11, §11",
+        technique="TLA+ spec GrainLaws.tla (law tree or refusal for every (dust model, reaction type); binding-energy lookup as a small "
+                  "state machine) checked with TLC for totality; grain / surface reactions of every type encoded, read and passed to "
+                  "every real dust model; emitted expressions parsed strictly and compared by TLC in Trace_GrainLaws.tla",
+        text="Structural identity of the emitted expression with the law tree built from the reacting species' own mass number, binding "
+             "energy (explicit > user table > RATE12 table), yield, charge class and the grain's group-suffixed symbols means equality for "
+             "all physical parameters; 5 models x 9 types x species x groups are covered, requests a model does not implement must be "
+             "refused, and reads / updates of the binding energy on one object must follow the lookup order.",
+        note="law trees are my transcription of HH93 and of UCLCHEM v1.3's RR07 routines in the generator's operand order (papers not "
+             "available offline): where I cannot vouch for a constant independently the tree pins the current behaviour"),
     "C20": dict(level="model_checking", design_ref="DESIGN.md §4 C20, §11",
         technique="TLA+ spec ConfigRoundTrip.tla (InitParse -> Content -> RenderRead over token shapes) model-checked with TLC; real "
                   "`naunet init ... --render` runs with the written TOML and the constructor arguments of Network / TemplateLoader "
